@@ -132,14 +132,19 @@ def main(argv=None) -> int:
     for f in findings:
         if not f.replay:
             continue
+        if a.cells:
+            try:
+                with open(os.path.join(VERIF_DIR, f.replay)) as fh:
+                    if not fnmatch.fnmatchcase(json.load(fh)["cell"], a.cells):
+                        continue
+            except Exception:  # noqa: BLE001
+                pass
         out = replay_file(prop, mod, f.replay, findings, preds, tier)
         if out is None:
             harness_errors.append(f"replay {f.replay}")
             continue
         r, ctx = out
         replayed += 1
-        if a.cells and not fnmatch.fnmatchcase(r["cell"], a.cells):
-            continue
         if ctx.harness_error:
             harness_errors.append(f"replay {f.replay}: {ctx.harness_error}")
             continue
@@ -157,7 +162,7 @@ def main(argv=None) -> int:
             else:
                 print(f"KNOWN-FINDING-NOT-REPRODUCED: property={prop} {f.id} {f.line}")
     for f in findings:
-        if f.status == "open" and not f.replay:
+        if f.status == "open" and not f.replay and not a.cells:
             print(f"KNOWN-FINDING: property={prop} {f.line}")
 
     # ------------------------------------------- stage 2: generated search
@@ -228,31 +233,19 @@ def main(argv=None) -> int:
         for he in res["harness_errors"]:
             harness_errors.append((res["cell"], he))
         for (kind, detail), e in res["sigs"].items():
-            # classify each recorded case of this signature separately: a
-            # known-finding predicate may cover only part of them
-            unk_cases = []
-            for cs in e["cases"]:
-                k = known(res["cell"], kind, detail, cs)
-                if k is None:
-                    unk_cases.append(cs)
-                else:
-                    known_hits[k.id] += 1
-            extra = e["count"] - len(e["cases"])
             sk = f"{kind}:{detail}"
             pc["signatures"][sk] = pc["signatures"].get(sk, 0) + e["count"]
-            if unk_cases:
-                best = min(unk_cases, key=lambda x: len(canon(x)))
+            for fid, n in e["known"].items():
+                known_hits[fid] += n
+            if e["unknown"]:
                 key = (res["cell"], kind, detail)
                 cur = unknown.get(key)
-                if cur is None or len(canon(best)) < len(canon(cur["case"])):
-                    unknown[key] = dict(case=best, info=e["info"], shard=res["shard"],
+                if cur is None or e["size"] < cur["size"]:
+                    unknown[key] = dict(case=e["case"], info=e["info"], size=e["size"], shard=res["shard"],
                                         nshards=len([t for t in tasks if t["cell"] == res["cell"]]),
-                                        count=len(unk_cases) + (extra if len(unk_cases) == len(e["cases"]) else 0))
-            elif extra > 0:
-                # more cases than we kept; all kept ones were known
-                k = known(res["cell"], kind, detail, e["cases"][0])
-                if k is not None:
-                    known_hits[k.id] += extra
+                                        count=e["unknown"] + (cur["count"] if cur else 0))
+                else:
+                    cur["count"] += e["unknown"]
 
     # ------------------------------------------- stage 3: shrink unknown signatures
     if unknown:
